@@ -179,6 +179,10 @@ theorem C01_results_pass_through_utils_call :
 theorem C01_closure_ids_never_collide :
     Skeleton.current.clIdFresh = true ∧ Skeleton.current.clStoresCreatedClosure = true ∧ Skeleton.current.clInsertUnderLock = true := by decide
 
+/-- `Receive` fails only on a closed table — a context that is done already is registered and reported through the receive function, to that one caller — and the stub panics only on failures of the link (both checked against the regenerated skeleton; `utils/broadcaster.go` is outside this property's anchors). Otherwise a handler that invokes a callable (or makes any call) with a context of its own that has expired ends the link, and every other call in flight gets `closed` instead of its handler's result. -/
+theorem C01_one_calls_expired_context_fails_no_other_call :
+    Skeleton.current.bcReceiveErrorsOnlyClosed = true ∧ Skeleton.current.panicSitesCanonical = true := by decide
+
 end Panrpc.Sys
 
 #print axioms Panrpc.Sys.C01_ids_unique
@@ -194,3 +198,4 @@ end Panrpc.Sys
 #print axioms Panrpc.Sys.C01_error_text_verbatim
 #print axioms Panrpc.Sys.C01_results_pass_through_utils_call
 #print axioms Panrpc.Sys.C01_closure_ids_never_collide
+#print axioms Panrpc.Sys.C01_one_calls_expired_context_fails_no_other_call
